@@ -236,15 +236,16 @@ static int peg_wf_chain(const uint32_t *bc, const uint8_t *isstart, uint32_t cle
   }
   return 1;
 }
-static int peg_inv_consts(const Janet *consts) {
+/* representation invariant of Janet values the matcher dereferences, installed constructively (rule R1: an assumed
+ * pointer equality leaves CBMC's value set empty): C functions among the constants are callable with (argc, argv);
+ * tagged string captures refer to a real string object. */
+static void peg_inv_consts(Janet *consts) {
   for (int i = 0; i < PEG_NCONST; i++)
-    if (janet_checktype(consts[i], JANET_CFUNCTION) && consts[i].as.pointer != (void *) h_cfun) return 0;
-  return 1;
+    if (janet_checktype(consts[i], JANET_CFUNCTION)) consts[i].as.pointer = (void *) h_cfun;
 }
-static int peg_inv_tcaps(const Janet *tcapdata) {
+static void peg_inv_tcaps(Janet *tcapdata) {
   for (int i = 0; i < PEG_CAPN; i++)
-    if (janet_checktype(tcapdata[i], JANET_STRING) && tcapdata[i].as.pointer != (void *) G_STRP) return 0;
-  return 1;
+    if (janet_checktype(tcapdata[i], JANET_STRING)) tcapdata[i].as.pointer = (void *) G_STRP;
 }
 
 const uint8_t *peg_rule__entry(PegState *s, const uint32_t *rule, const uint8_t *text);
@@ -266,12 +267,12 @@ void h_peg_rule(void) {
   __CPROVER_assume(bc[r0] != PEG_NOT_OP);
 #endif
   /* constants: C functions among them are callable with (argc, argv) */
-  __CPROVER_assume(peg_inv_consts(consts));
+  peg_inv_consts(consts);
   /* tagged captures: string values refer to a real string object (length <= PEG_STRN) */
   int32_t slen = nd_i32(); __CPROVER_assume(slen >= 0 && slen <= PEG_STRN);
   JanetStringHead *sh = malloc(sizeof(JanetStringHead) + PEG_STRN + 1); __CPROVER_assume(sh != NULL);
   sh->length = slen; G_STRP = sh->data;
-  __CPROVER_assume(peg_inv_tcaps(tcapdata));
+  peg_inv_tcaps(tcapdata);
 
   /* text of symbolic length, symbolic sub-window end and start offset */
   size_t tlen = nd_size(); __CPROVER_assume(tlen <= PEG_TMAX);
